@@ -240,6 +240,9 @@ struct Acc {
     harness_errors: Vec<(u64, String)>,
     // key -> (run index, violation)
     violations: BTreeMap<String, (u64, Violation)>,
+    // key -> a few more run indices showing the same violation (fallback when
+    // the first one only fails because of state left over in the process)
+    more_runs: BTreeMap<String, Vec<u64>>,
     violating_runs: u64,
 }
 impl Acc {
@@ -256,6 +259,7 @@ impl Acc {
             steps: 0,
             harness_errors: Vec::new(),
             violations: BTreeMap::new(),
+            more_runs: BTreeMap::new(),
             violating_runs: 0,
         }
     }
@@ -293,6 +297,12 @@ impl Acc {
         if let Some(v) = o.violation {
             self.violating_runs += 1;
             let k = v.key();
+            {
+                let e = self.more_runs.entry(k.clone()).or_default();
+                if e.len() < 6 {
+                    e.push(idx);
+                }
+            }
             match self.violations.get(&k) {
                 Some((i, _)) if *i <= idx => {}
                 _ => {
@@ -319,6 +329,12 @@ impl Acc {
             *self.policies.entry(k).or_insert(0) += v;
         }
         self.harness_errors.extend(o.harness_errors);
+        for (k, v) in o.more_runs {
+            let e = self.more_runs.entry(k).or_default();
+            e.extend(v);
+            e.sort();
+            e.truncate(8);
+        }
         for (k, (i, v)) in o.violations {
             match self.violations.get(&k) {
                 Some((j, _)) if *j <= i => {}
@@ -546,7 +562,11 @@ pub fn run_batch<S: Scenario>(sc: &S, env: &Env, n_runs: u64) -> BatchReport {
             // another violation of the same run comes first; it has its own entry
             continue;
         }
-        let start = o.narrowed.unwrap_or(plan);
+        // (a narrowed plan that does not fail on its own is not used)
+        let start = match o.narrowed {
+            Some(n) if exec_guarded(sc, &n).violation.map_or(false, |x| x.key() == key) => n,
+            _ => plan,
+        };
         let (min_plan, min_v, steps) = shrink_plan(
             sc,
             start,
@@ -589,7 +609,37 @@ pub fn run_batch<S: Scenario>(sc: &S, env: &Env, n_runs: u64) -> BatchReport {
         };
         std::fs::write(&fname, serde_json::to_string_pretty(&rf).unwrap()).unwrap();
         // the replay must reproduce in a fresh process
-        let reproduced = replay_in_fresh_process(sc.id(), &fname, &min_v.key());
+        let mut reproduced = replay_in_fresh_process(sc.id(), &fname, &min_v.key());
+        if !reproduced {
+            // The minimised plan fails in this process but not in a fresh one: the
+            // code under test keeps state in the process between runs (a static
+            // cache, say) and the in-process shrinker was fed by it. Look for a
+            // run whose own plan fails in a fresh process and minimise that one
+            // with every candidate executed in a fresh process.
+            let cands: Vec<u64> = acc.more_runs.get(&key).cloned().unwrap_or_default();
+            for ci in cands {
+                let p = plan_of(sc, env, ci);
+                if fresh_violation_key(sc, env, &p, &key).as_deref() == Some(key.as_str()) {
+                    let (minp, st) = shrink_plan_fresh(sc, env, p, &key, 400, 40.0);
+                    let rf2 = ReplayFile {
+                        property: sc.id().to_string(),
+                        scenario: sc.kind().to_string(),
+                        batch_seed: env.seed,
+                        run_index: ci,
+                        tier: env.tier.name().to_string(),
+                        violation: min_v.clone(),
+                        shrink_steps: st,
+                        plan: serde_json::to_value(&minp).unwrap(),
+                    };
+                    std::fs::write(&fname, serde_json::to_string_pretty(&rf2).unwrap()).unwrap();
+                    reproduced = replay_in_fresh_process(sc.id(), &fname, &min_v.key());
+                    if reproduced {
+                        println!("[{}] note: '{}' depends on state kept in the process between runs; minimised with fresh processes (run {})", sc.id(), key, ci);
+                        break;
+                    }
+                }
+            }
+        }
         if !reproduced {
             println!(
                 "HARNESS-ERROR: property={} replay {} did not reproduce '{}' in a fresh process",
@@ -721,6 +771,61 @@ fn sanitize(s: &str) -> String {
     s.chars()
         .map(|c| if c.is_ascii_alphanumeric() { c } else { '_' })
         .collect()
+}
+
+/// Execute a plan in a fresh process and return the key of the violation it
+/// shows there, if any (used when a violation depends on state that the code
+/// under test keeps in the process between runs).
+fn fresh_violation_key<S: Scenario>(sc: &S, env: &Env, plan: &S::Plan, tag: &str) -> Option<String> {
+    let dir = format!("{}/replays", env.verif_dir);
+    let _ = std::fs::create_dir_all(&dir);
+    let path = format!("{}/.tmp-{}-{}-{}.json", dir, sc.id(), sanitize(tag), std::process::id());
+    let rf = ReplayFile {
+        property: sc.id().to_string(),
+        scenario: sc.kind().to_string(),
+        batch_seed: env.seed,
+        run_index: 0,
+        tier: env.tier.name().to_string(),
+        violation: Violation::new("?", "?", "?"),
+        shrink_steps: 0,
+        plan: serde_json::to_value(plan).ok()?,
+    };
+    std::fs::write(&path, serde_json::to_string(&rf).ok()?).ok()?;
+    let exe = std::env::current_exe().ok()?;
+    let out = std::process::Command::new(exe)
+        .args(["verif::verif_entry", "--exact", "--nocapture", "--test-threads=1"])
+        .env("VERIF_CMD", "replay")
+        .env("VERIF_PROP", sc.id())
+        .env("VERIF_REPLAY", &path)
+        .output()
+        .ok();
+    let _ = std::fs::remove_file(&path);
+    let out = out?;
+    let s = String::from_utf8_lossy(&out.stdout).to_string();
+    s.lines().find_map(|l| l.find("REPRODUCED key=").map(|i| l[i + 15..].trim().to_string()))
+}
+
+/// shrink with every candidate executed in a fresh process
+fn shrink_plan_fresh<S: Scenario>(sc: &S, env: &Env, start: S::Plan, key: &str, budget_execs: u64, budget_s: f64) -> (S::Plan, u64) {
+    let t0 = Instant::now();
+    let mut cur = start;
+    let mut execs = 0u64;
+    let mut steps = 0u64;
+    'outer: loop {
+        for cand in sc.shrink(&cur) {
+            if execs >= budget_execs || t0.elapsed().as_secs_f64() > budget_s {
+                break 'outer;
+            }
+            execs += 1;
+            if fresh_violation_key(sc, env, &cand, key).as_deref() == Some(key) {
+                cur = cand;
+                steps += 1;
+                continue 'outer;
+            }
+        }
+        break;
+    }
+    (cur, steps)
 }
 
 fn replay_in_fresh_process(prop: &str, path: &str, key: &str) -> bool {
